@@ -535,13 +535,13 @@ def cases(rng, tier):
             # 4 non-null revisions: 3*5*9*17 = 2295 graphs; sample the fragments
             allc = _exhaustive(4, rng, 1)
             for c in allc:
-                if rng.random() < 0.12:
+                if rng.random() < 0.06:
                     yield c
         else:
             yield from _exhaustive(n, rng, 2 if quick else 4)
-    yield from _real_cases(rng, 200 if quick else 3000)
-    yield from _found_head_cases(rng, 250 if quick else 3000)
-    nrand = 900 if quick else 12000
+    yield from _real_cases(rng, 200 if quick else 1500)
+    yield from _found_head_cases(rng, 250 if quick else 1500)
+    nrand = 900 if quick else 6000
     for i in range(nrand):
         n = rng.choice([4, 6, 8, 12, 20, 30]) if not quick else rng.choice([4, 6, 8, 12, 20])
         kind = ("full", "limited", "limited", "bfs")[i % 4]
